@@ -297,6 +297,20 @@ def run(repo, check):
     check.run_rule(rule_r1, repo)
     check.run_rule(rule_r2, repo)
     check.run_rule(rule_r3, repo)
+    from sa.rules import c04, c17
+    r4 = c04.rule_r3(repo, 'quick')
+    r4.rule = 'C11.R4'
+    r4.title = 'the decoder consumes exactly the declared extent of every section, so a decode reports the span the scanner advances by (shared with C04.R3)'
+    r4.findings = [f for f in r4.findings if f.key.startswith('Decoder.')]
+    for f in r4.findings:
+        f.rule = 'C11.R4'
+    check.add(r4)
+    r5 = c17.rule_r2(repo)
+    r5.rule = 'C11.R5'
+    r5.title = 'filter expressions over metadata read the section they name (shared with C17.R2)'
+    for f in r5.findings:
+        f.rule = 'C11.R5'
+    check.add(r5)
     check.assumptions = ['the scripted decoder stands for Decoder.process: it succeeds exactly at real message starts, reports the decoded span (C04.R4) and '
                          'raises a library error on damaged input (C12); the scanner logic is what is decided here',
                          'the boundaries found in a particular byte string are a runtime fact']
